@@ -182,6 +182,11 @@ def compare(batch, res):
     if len(outs) != len(lines):
         raise RuntimeError("driver returned %d lines for %d inputs" % (len(outs), len(lines)))
     for (op, a, impl_out), model_out in zip(batch, outs):
+        canon = getattr(op, "canon_model", None)
+        if canon is not None:
+            # the model answers exactly (e.g. rationals); the op maps that to the canonical form
+            # in which the implementation's (float) answer was recorded
+            model_out = canon(a, model_out)
         if impl_out != model_out:
             res.disagreements.append((op, a, impl_out, model_out))
 
